@@ -54,13 +54,14 @@ def run(ctx):
                 dict(got=[float(x) for x in m[:4]], want=[float(x) for x in want[:4]]))
         if m[0] != 0.0 or np.any(np.diff(m)[(lam[1:] + lam[:-1]) > 0] <= 0):
             bad("multiphase pseudopressure is not zero at the first pressure / not strictly increasing where mobility is positive", inp, [float(x) for x in m[:4]])
-        c = float(rng.uniform(0.1, 50))
+        # "any constant factor": from unit conversions of the permeability (1 mD = 9.87e-16 m^2) to large ones
+        c = float(rng.uniform(0.1, 50)) if k % 3 == 0 else dom.loguniform(rng, 1e-18, 1e-9) if k % 3 == 1 else dom.loguniform(rng, 1e3, 1e9)
         pvt2 = dict(pvt)
         for key in ("rho_o0", "rho_g0", "rho_w0"):
             pvt2[key] = c * pvt[key]
         m2 = np.asarray(pseudopressure_threephase(P, So, pvt2, kr), float)
         ev += 1
-        if not np.allclose(m2, c * m, rtol=1e-10):
+        if not np.allclose(m2, c * m, rtol=1e-10, atol=0):
             bad("multiphase pseudopressure does not scale with a constant factor applied to mobility", dict(**inp, factor=c), float(np.abs(m2 - c * m).max()))
         # through FlowPropertiesTwoPhase: scaled pseudopressure increasing, 1 at p_i, frac-face pressure in [0, 1)
         tb2 = dict(tb)
@@ -76,6 +77,19 @@ def run(ctx):
             continue
         ms = np.asarray(fp.pvt_props["m-scaled"], float)
         ev += 1
+        # ... and the SCALED pseudopressure the wrapper reports does not change at all when mobility is multiplied by a constant
+        try:
+            with warnings.catch_warnings():
+                warnings.simplefilter("ignore")
+                fpc = FlowPropertiesTwoPhase.from_table(tb2, krt, {q: c * rho[q] for q in rho}, 0.1, sw, p_i)
+            msc = np.asarray(fpc.pvt_props["m-scaled"], float)
+            pq_ = float(rng.uniform(P[1], p_i))
+            ev += 1
+            if not (np.allclose(msc, ms, rtol=1e-9, atol=1e-13) and dom.relclose(float(fpc.m_i), float(fp.m_i), 1e-9) and dom.relclose(float(fpc.m_scaled_func(pq_)), float(fp.m_scaled_func(pq_)), 1e-9, 1e-13)):
+                bad("the scaled multiphase pseudopressure (column, m_i, frac-face value) changes when mobility is multiplied by a constant factor", dict(**inp, factor=c, p_i=p_i, p_query=pq_),
+                    dict(m_i=[float(fp.m_i), float(fpc.m_i)], at_query=[float(fp.m_scaled_func(pq_)), float(fpc.m_scaled_func(pq_))], column_head=[float(x) for x in msc[:3]]))
+        except Exception as e:  # noqa: BLE001
+            bad("FlowPropertiesTwoPhase.from_table fails when the reference densities are multiplied by a constant", dict(**inp, factor=c), repr(e)[:200])
         mraw_fp = np.asarray(fp.pvt_props["pseudopressure"], float)
         if not np.allclose(mraw_fp, want, rtol=1e-10, atol=1e-12 * abs(want[-1])):
             bad("the pseudopressure column built by FlowPropertiesTwoPhase.from_table is not the trapezoid integral of the documented total mobility", inp,
